@@ -490,9 +490,105 @@ def casadi(eng):  # noqa: F811  (wrap veccat to remember in_var)
     return mod
 
 
+# ------------------------------------------------------------------------------------------------ _substitute_metadata
+class Attr(Ext):
+    """an MX-valued attribute: a constant, or an expression that a substitution turns into `outcome`"""
+    type_names = ("MX",)
+
+    def __init__(self, label, kind, outcome=None):
+        self.label, self.kind, self.outcome = label, kind, outcome    # kind: const | expr | result
+
+    def sym_getattr(self, eng, name):
+        if name == "is_constant":
+            return stub(lambda eng: self.kind == "const" or (self.kind == "result" and self.outcome in ("number", "integral", "inf", "nan", "vector-constant")))
+        if name == "is_regular":
+            return stub(lambda eng: self.kind == "result" and self.outcome in ("number", "integral"))
+        if name == "shape":
+            return (3, 1) if self.outcome == "vector-constant" else (1, 1)
+        raise Unsupported("MX.%s" % name)
+
+    def sym_unop(self, eng, op):
+        if op == "float" and self.kind == "result":
+            return {"number": 2.5, "integral": 4.0, "inf": float("inf"), "nan": float("nan")}[self.outcome]
+        raise Unsupported("%s() of %s" % (op, self.label))
+
+
+OUTCOMES = ["expression", "number", "integral", "inf", "vector-constant"]
+
+
+def h_substitute_metadata(eng):
+    """Model._substitute_metadata (used by every replace_* / elimination step): each MX-valued, non-constant attribute gets ITS OWN
+    substituted expression (positions of the zip stay aligned over variables and attributes), everything else is left alone, and a
+    result that became a constant scalar is stored as a number of the variable's declared Python type (inf / nan stay floats)."""
+    install(eng)
+    mm = eng.load_module(MODEL)
+    cls = eng.module_global(mm, "Model")
+    f = eng.find_function(MODEL, "Model._substitute_metadata")
+    ptypes = [eng.builtins["float"], eng.builtins["int"], eng.builtins["bool"]]
+    names = ["float", "int", "bool"]
+    pattern = eng.choice(4)
+    eng.input("expression_attribute_pattern", pattern)
+    # which (variable, attribute) pairs hold an expression, and what the substitution makes of each
+    where = [[(0, "value"), (1, "max"), (2, "start")], [(0, "min"), (0, "max"), (1, "value")], [(2, "value"), (1, "nominal"), (1, "start"), (0, "fixed")], []][pattern]
+    outs = {pos: OUTCOMES[eng.choice(len(OUTCOMES))] for pos in where}
+    eng.input("substitution_outcomes", {"%s.%s" % (names[i], a): o for (i, a), o in outs.items()})
+    variables, orig = [], {}
+    cats = ["states", "alg_states", "parameters"]
+    m = VObj(cls, {c: VList([]) for c in ("states", "alg_states", "inputs", "parameters", "constants")})
+    for i in range(3):
+        v = VObj(VClass("Variable"), {"symbol": T("sym", (), name="v%d" % i), "python_type": ptypes[i]})
+        for a in ATTRS:
+            if (i, a) in outs:
+                val = Attr("v%d.%s" % (i, a), "expr", outs[(i, a)])
+            elif a == "min":
+                val = Attr("v%d.min" % i, "const")
+            else:
+                val = {"value": float("nan"), "max": float("inf"), "start": 0, "fixed": False, "nominal": 1}[a]
+            v.fields[a] = val
+            orig[(i, a)] = val
+        variables.append(v)
+        m.fields[cats[i]].items.append(v)
+    results = {}
+
+    def substitute(eng, exprs, symbols, values):
+        out = []
+        for e in eng.iterate(exprs):
+            r = Attr("subst(%s)" % e.label, "result", e.outcome)
+            r.of = e
+            results[id(e)] = r
+            out.append(r)
+        return VList(out)
+    eng.ext_modules["casadi"].attrs["substitute"] = stub(substitute)
+    eng.ext_modules["itertools"].attrs["chain"] = stub(lambda eng, *a: VList([x for s_ in a for x in eng.iterate(s_)]))
+    eng.call(VBound(f, m), [VList([T("sym", (), name="p")]), VList([1.0])], {})
+    eng.cover("submeta.done")
+    ok_untouched, ok_own, ok_type = True, True, True
+    for i, v in enumerate(variables):
+        for a in ATTRS:
+            got, was = v.fields.get(a), orig[(i, a)]
+            if (i, a) not in outs:
+                ok_untouched = ok_untouched and got is was
+                continue
+            r = results.get(id(was))
+            out = outs[(i, a)]
+            numeric = names[i] in ("int", "float") and a in ("value", "start", "min", "max", "nominal")
+            if out in ("expression", "vector-constant") or not numeric:
+                ok_own = ok_own and r is not None and got is r
+            else:
+                want = {"number": 2.5, "integral": 4.0, "inf": float("inf")}[out]
+                ok_own = ok_own and isinstance(got, (int, float)) and not isinstance(got, bool) and float(got) == (float(int(want)) if names[i] == "int" and out != "inf" else want)
+                if out == "inf":
+                    ok_type = ok_type and isinstance(got, float)
+                else:
+                    ok_type = ok_type and type(got).__name__ == names[i]
+    eng.prove("submeta.other_attributes_left_alone", z3.BoolVal(bool(ok_untouched)))
+    eng.prove("submeta.each_expression_attribute_gets_its_own_substituted_value", z3.BoolVal(bool(ok_own)))
+    eng.prove("submeta.constant_results_stored_in_the_declared_python_type", z3.BoolVal(bool(ok_type)))
+
+
 HARNESSES = [("model.Variable.__init__", h_defaults), ("Generator._ast_symbols_to_variables/attributes", h_attribute_copy),
-             ("Model.variable_metadata_function", h_metadata_function)]
-EXPECTED_COVER = {"defaults.done", "copy.done", "meta.done"}
+             ("Model.variable_metadata_function", h_metadata_function), ("Model._substitute_metadata", h_substitute_metadata)]
+EXPECTED_COVER = {"defaults.done", "copy.done", "meta.done", "submeta.done"}
 BOUNDED = True
 LEVEL = "proof"
 TRUSTED = ["pyvc VC generator", "z3 5.1.0",
@@ -501,7 +597,7 @@ TRUSTED = ["pyvc VC generator", "z3 5.1.0",
 ASSUMPTIONS = [
     "variable counts and sizes per category enumerated (4 shapes incl. a vector before a scalar and vector parameters); affinity facts of every attribute expression symbolic, with 'affine in the whole vector' implying 'affine in each parameter' but not conversely",
     "the attribute loop is verified for one symbol at a time (the loop body does not depend on other symbols)",
-    "_substitute_metadata's coercion (used by replace_parameter_values) is exercised by the bounded replay only",
+    "_substitute_metadata: three variables (float / int / bool), four placements of expression-valued attributes, five outcomes of the substitution per attribute (expression, number, integral number, inf, constant vector)",
 ]
 EXPLANATION = "Defaults, attribute copy/coercion, metadata matrix layout and the guard of the affine rebuild."
 MANIFEST = {
